@@ -39,22 +39,27 @@
 static int dcr_isspace(char c) { return c == ' ' || (c >= 9 && c <= 13); }
 static int dcr_isblank(char c) { return c == ' ' || c == '\t'; }
 
+static int dcr_digit(char c) { return (c >= '0' && c <= '9') ? c - '0' : 99; }
 /* integer value: 1 = ok (*out set), 0 = malformed */
-static int dcr_int(const char *s, int *out)
+static int dcr_int_ex(const char *s, int *out, int *beyond_int);
+static int dcr_int(const char *s, int *out) { int b; return dcr_int_ex(s, out, &b); }
+/* the same, also telling whether the decimal value lies outside the range of int (and was saturated) */
+static int dcr_int_ex(const char *s, int *out, int *beyond_int)
 {
 	size_t i = 0; int neg = 0, nd = 0; unsigned long long v = 0; long long r;
 	while (dcr_isspace(s[i])) i++;
 	if (s[i] == '+' || s[i] == '-') { neg = s[i] == '-'; i++; }
-	while (s[i] >= '0' && s[i] <= '9') {
-		if (nd < 15) v = v * 10 + (unsigned)(s[i] - '0');   /* 15 digits fit; */
+	while (dcr_digit(s[i]) < 10) {
+		if (nd < 15) v = v * 10 + (unsigned long long)dcr_digit(s[i]);   /* 15 digits fit; */
 		else v = 1ULL << 60;                                 /* more digits: certainly beyond int */
 		i++; nd++;
 	}
+	*beyond_int = 0;
 	if (!nd) { if (s[0] != 0) return 0; *out = 0; return 1; }   /* "" reads as 0 (atoi); other digit-less text is malformed */
 	if (s[i]) return 0;
 	r = neg ? -(long long)v : (long long)v;
-	if (r > INT_MAX) r = INT_MAX;
-	if (r < INT_MIN) r = INT_MIN;
+	if (r > INT_MAX) { r = INT_MAX; *beyond_int = 1; }
+	if (r < INT_MIN) { r = INT_MIN; *beyond_int = 1; }
 	if (r == -1) return 0;
 	*out = (int)r;
 	return 1;
